@@ -15,6 +15,8 @@ pub struct ListStylist<'a> {
     real_item_count: usize,
     has_comment: bool,
     has_line_comment: bool,
+    /// Whether the last thing seen is a line comment (nothing but spaces after it).
+    ends_with_line_comment: bool,
     fold_style: FoldStyle,
     disallow_front_comment: bool,
     disallow_comment_detach: bool,
@@ -87,6 +89,7 @@ impl<'a> ListStylist<'a> {
             real_item_count: 0,
             has_comment: false,
             has_line_comment: false,
+            ends_with_line_comment: false,
             fold_style: FoldStyle::Fit,
             disallow_front_comment: false,
             disallow_comment_detach: false,
@@ -186,6 +189,7 @@ impl<'a> ListStylist<'a> {
         let arena = &self.printer.arena;
 
         self.real_item_count += 1;
+        self.ends_with_line_comment = false;
         let before = if self.disallow_front_comment {
             self.detach_comments();
             arena.nil()
@@ -221,6 +225,7 @@ impl<'a> ListStylist<'a> {
         match node.kind() {
             SyntaxKind::LineComment | SyntaxKind::BlockComment => {
                 self.has_comment = true;
+                self.ends_with_line_comment = node.kind() == SyntaxKind::LineComment;
                 // Line comment cannot appear in single line block
                 if node.kind() == SyntaxKind::LineComment {
                     self.has_line_comment = true;
@@ -334,7 +339,8 @@ impl<'a> ListStylist<'a> {
                         Item::Commented { body, after } => {
                             seen_real_items += 1;
                             inner += body + sep.clone() + after;
-                            if !sty.tight_delim || !is_last {
+                            // A trailing line comment must not swallow the closing delimiter.
+                            if !sty.tight_delim || !is_last || self.ends_with_line_comment {
                                 inner += arena.hardline();
                             }
                         }
